@@ -34,7 +34,28 @@ ASSUMPTIONS = [
 # ------------------------------------------------------------------------------ translator
 
 
+def _name_arg(fn, node):
+    """The `name` argument of a _wrap_numbers call → (name of the per-device form, name of the system-wide
+    form). Recognised: a string literal, or a variable assigned once in the function by
+    `<var> = 'A' if perdisk else 'B'`."""
+    if isinstance(node, ast.Constant) and isinstance(node.value, str):
+        return node.value, node.value
+    if isinstance(node, ast.Name):
+        assigns = [st for st in ast.walk(fn) if isinstance(st, ast.Assign) and len(st.targets) == 1
+                   and extract.dotted(st.targets[0]) == node.id]
+        if len(assigns) == 1 and isinstance(assigns[0].value, ast.IfExp):
+            ie = assigns[0].value
+            t = extract.dotted(ie.test)
+            if t in ("perdisk", "pernic"):
+                return extract.const(ie.body), extract.const(ie.orelse)
+            if isinstance(ie.test, ast.UnaryOp) and isinstance(ie.test.op, ast.Not) \
+                    and extract.dotted(ie.test.operand) in ("perdisk", "pernic"):
+                return extract.const(ie.orelse), extract.const(ie.body)
+    raise NotRecognised("name argument of _wrap_numbers not recognised: %s" % extract.unparse(node))
+
+
 def _front_end_facts(tree, fname):
+    """→ (name of the system-wide form, empty snapshot fed to wrap_numbers?, name of the per-device form)"""
     fn = extract.find_def(tree, fname)
     wrap_name = None
     empty_feeds = None
@@ -55,7 +76,7 @@ def _front_end_facts(tree, fname):
             idx_wrap = i
         for c in calls:
             if len(c.args) >= 2:
-                nm = extract.const(c.args[1])
+                nm = _name_arg(fn, c.args[1])
                 if wrap_name is None:
                     wrap_name = nm
                 elif wrap_name != nm:
@@ -64,18 +85,111 @@ def _front_end_facts(tree, fname):
         raise NotRecognised("shape of %s not recognised" % fname)
     if empty_feeds is None:
         empty_feeds = idx_wrap < idx_empty
-    return wrap_name, empty_feeds
+    return wrap_name[1], empty_feeds, wrap_name[0]
 
 
-def _clear_name(tree, fname):
+def _clear_names(tree, fname):
+    """Names cleared by `<fname>.cache_clear`: `functools.partial(_wrap_numbers.cache_clear, 'N')`, or a
+    module-level function whose body is a sequence of `_wrap_numbers.cache_clear('N')` calls."""
     for st in tree.body:
         if isinstance(st, ast.Assign) and len(st.targets) == 1 \
                 and extract.dotted(st.targets[0]) == fname + ".cache_clear":
             c = st.value
             if isinstance(c, ast.Call) and extract.dotted(c.func).endswith("partial") and len(c.args) == 2 \
                     and extract.dotted(c.args[0]).endswith("cache_clear"):
-                return extract.const(c.args[1])
+                return [extract.const(c.args[1])]
+            if isinstance(c, ast.Name):
+                fn = extract.find_def(tree, c.id)
+                names = []
+                for b in fn.body:
+                    if isinstance(b, ast.Expr) and isinstance(b.value, ast.Constant):
+                        continue  # docstring
+                    if isinstance(b, ast.Expr) and isinstance(b.value, ast.Call) and len(b.value.args) == 1 \
+                            and not b.value.keywords \
+                            and extract.dotted(b.value.func) in ("_wrap_numbers.cache_clear",
+                                                                 "_common.wrap_numbers.cache_clear"):
+                        names.append(extract.const(b.value.args[0]))
+                    else:
+                        raise NotRecognised("statement in %s not recognised: %s" % (c.id, extract.unparse(b)))
+                if names:
+                    return names
     raise NotRecognised("%s.cache_clear assignment not recognised" % fname)
+
+
+def _clear_name(tree, fname, own):
+    names = _clear_names(tree, fname)
+    return own if own in names else names[0]
+
+
+def _linux_filter(init, pslinux):
+    """Does the front end forward `perdisk` on Linux and does the Linux layer then skip every device that
+    is not a whole disk?"""
+    fn = extract.find_def(init, "disk_io_counters")
+    forwards = False
+    for st in fn.body:
+        if isinstance(st, ast.Assign) and extract.dotted(st.targets[0]) == "kwargs" and isinstance(st.value, ast.IfExp) \
+                and extract.dotted(st.value.test) == "LINUX" and isinstance(st.value.body, ast.Call) \
+                and any(k.arg == "perdisk" and extract.dotted(k.value) == "perdisk" for k in st.value.body.keywords):
+            forwards = True
+    calls = extract.calls_in(fn, "disk_io_counters")
+    plat = [c for c in calls if extract.dotted(c.func) == "_psplatform.disk_io_counters"]
+    if len(plat) != 1:
+        raise NotRecognised("call of _psplatform.disk_io_counters not found exactly once")
+    passes = any(k.arg is None and extract.dotted(k.value) == "kwargs" for k in plat[0].keywords) and forwards
+    explicit = [k for k in plat[0].keywords if k.arg == "perdisk"]
+    if explicit:
+        raise NotRecognised("perdisk passed in an unrecognised way")
+    lfn = extract.find_def(pslinux, "disk_io_counters")
+    skips = False
+    for n in ast.walk(lfn):
+        if isinstance(n, ast.If) and isinstance(n.test, ast.BoolOp) and isinstance(n.test.op, ast.And) \
+                and len(n.test.values) == 2 and all(isinstance(v, ast.UnaryOp) and isinstance(v.op, ast.Not) for v in n.test.values):
+            a, b = [extract.dotted(v.operand) for v in n.test.values]
+            if {a, b} == {"perdisk", "is_storage_device()"} and any(isinstance(x, ast.Continue) for x in n.body):
+                skips = True
+    if "perdisk" not in [a.arg for a in lfn.args.args]:
+        if passes:
+            raise NotRecognised("front end passes perdisk but the Linux layer does not take it")
+        return False
+    return passes and skips
+
+
+def _single_with_lock(fn, lock):
+    """Is the body of `fn` (after the docstring) exactly one `with <lock>:` statement?"""
+    body = [b for b in fn.body if not (isinstance(b, ast.Expr) and isinstance(b.value, ast.Constant))]
+    return len(body) == 1 and isinstance(body[0], ast.With) and len(body[0].items) == 1 \
+        and extract.dotted(body[0].items[0].context_expr) == lock
+
+
+def _lock_facts(common):
+    """(run only ever executes under _wn.lock, cache_clear/cache_info bodies are inside `with self.lock`)"""
+    cls = extract.find_class(common, "_WrapNumbers")
+    init = extract.find_def(common, "__init__", cls="_WrapNumbers")
+    locks = [st for st in ast.walk(cls) if isinstance(st, ast.Assign)
+             and any(extract.dotted(t) == "self.lock" for t in st.targets)]
+    if len(locks) != 1 or locks[0] not in init.body or extract.dotted(locks[0].value) != "threading.Lock()":
+        raise NotRecognised("self.lock is not a threading.Lock() created once in __init__")
+    inst = [st for st in common.body if isinstance(st, ast.Assign) and extract.dotted(st.value) == "_WrapNumbers()"]
+    if len(inst) != 1 or extract.dotted(inst[0].targets[0]) != "_wn":
+        raise NotRecognised("the single instance _wn = _WrapNumbers() not found")
+    wfn = extract.find_def(common, "wrap_numbers")
+    run_calls = [c for c in ast.walk(common) if isinstance(c, ast.Call) and extract.dotted(c.func).endswith(".run")
+                 and extract.dotted(c.func).split(".")[0] in ("_wn", "self", "wrap_numbers")]
+    in_with = []
+    if _single_with_lock(wfn, "_wn.lock"):
+        w = [b for b in wfn.body if isinstance(b, ast.With)][0]
+        in_with = [c for c in ast.walk(w) if isinstance(c, ast.Call) and extract.dotted(c.func) == "_wn.run"]
+    locked_run = len(run_calls) == 1 and len(in_with) == 1 and run_calls[0] is in_with[0]
+    # run() itself and its helpers must not be reachable from elsewhere in the class without the lock
+    for helper in ("_add_dict", "_remove_dead_reminders"):
+        users = [c for c in ast.walk(common) if isinstance(c, ast.Call) and extract.dotted(c.func).endswith("." + helper)]
+        run_fn = extract.find_def(common, "run", cls="_WrapNumbers")
+        inside = [c for c in ast.walk(run_fn) if isinstance(c, ast.Call) and extract.dotted(c.func).endswith("." + helper)]
+        if len(users) != len(inside):
+            locked_run = False
+    locked_clear = all(_single_with_lock(extract.find_def(common, m, cls="_WrapNumbers"), "self.lock")
+                       for m in ("cache_clear", "cache_info"))
+    return locked_run, locked_clear
 
 
 def _strict_less(tree):
@@ -111,19 +225,46 @@ def facts(snap, F):
             d[fname] = _front_end_facts(init, fname)
         return d[fname]
 
+    def net_name():
+        tot, _, per = fe("net_io_counters")
+        if tot != per:
+            raise NotRecognised("net_io_counters uses two names (the model has one slot for it)")
+        return tot
+
+    def locks():
+        if "locks" not in d:
+            d["locks"] = _lock_facts(common)
+        return d["locks"]
+
     F.try_add("emptyFeedsWrap", "Bool",
               lambda: extract.lean_bool(fe("disk_io_counters")[1] and fe("net_io_counters")[1]),
               "does the front end hand an empty raw dict to wrap_numbers (true) or return before it (false)?")
     F.try_add("diskName", "String", lambda: extract.lean_str(fe("disk_io_counters")[0]),
-              "the `name` literal disk_io_counters passes to wrap_numbers")
-    F.try_add("netName", "String", lambda: extract.lean_str(fe("net_io_counters")[0]),
+              "the `name` literal disk_io_counters passes to wrap_numbers (system-wide form, perdisk=False)")
+    F.try_add("netName", "String", lambda: extract.lean_str(net_name()),
               "the `name` literal net_io_counters passes to wrap_numbers")
-    F.try_add("diskClearName", "String", lambda: extract.lean_str(_clear_name(init, "disk_io_counters")),
+    F.try_add("diskClearName", "String",
+              lambda: extract.lean_str(_clear_name(init, "disk_io_counters", fe("disk_io_counters")[0])),
               "the `name` disk_io_counters.cache_clear clears")
-    F.try_add("netClearName", "String", lambda: extract.lean_str(_clear_name(init, "net_io_counters")),
+    F.try_add("netClearName", "String", lambda: extract.lean_str(_clear_name(init, "net_io_counters", net_name())),
               "the `name` net_io_counters.cache_clear clears")
     F.try_add("wrapIsStrictLess", "Bool", lambda: extract.lean_bool(_strict_less(common)),
               "the comparison that detects a wrap is `input_value < old_value` (strict)")
+    F.try_add("diskPerName", "String", lambda: extract.lean_str(fe("disk_io_counters")[2]),
+              "the `name` disk_io_counters passes to wrap_numbers when perdisk=True")
+    F.try_add("diskClearNames", "List String",
+              lambda: extract.lean_list(_clear_names(init, "disk_io_counters"), extract.lean_str),
+              "every `name` disk_io_counters.cache_clear clears")
+    F.try_add("netClearNames", "List String",
+              lambda: extract.lean_list(_clear_names(init, "net_io_counters"), extract.lean_str),
+              "every `name` net_io_counters.cache_clear clears")
+    F.try_add("linuxSkipsPartitions", "Bool",
+              lambda: extract.lean_bool(_linux_filter(init, extract.parse_module(snap, "_pslinux.py"))),
+              "disk_io_counters forwards perdisk on LINUX and _pslinux.disk_io_counters(perdisk=False) skips every device that is not is_storage_device()")
+    F.try_add("runUnderLock", "Bool", lambda: extract.lean_bool(locks()[0]),
+              "the only call of _WrapNumbers.run is `_wn.run(...)` inside `with _wn.lock:` in wrap_numbers (one instance, one threading.Lock)")
+    F.try_add("clearUnderLock", "Bool", lambda: extract.lean_bool(locks()[1]),
+              "the bodies of _WrapNumbers.cache_clear and cache_info are a single `with self.lock:` block")
 
 
 # ------------------------------------------------------------------------------ implementation side
